@@ -257,7 +257,16 @@ class BldBatch:
         return self._run(["python3", PY_DRIVER, self.out_dir, "python"], jobs, timeout, env=env)
 
     # ------------------------------------------------------------ C14 stage 2
-    def stage2(self, exprs, name="stage2", timeout=600):
+    def stage2(self, exprs, name="stage2", timeout=600, chunk=400):
+        """stage2_one on chunks of expressions, in parallel (one Go program per chunk)"""
+        if len(exprs) <= chunk:
+            return self.stage2_one(exprs, name=name, timeout=timeout)
+        parts = [(k, exprs[i:i + chunk]) for k, i in enumerate(range(0, len(exprs), chunk))]
+        res = core.parallel(lambda p: self.stage2_one(p[1], name="%s_%d" % (name, p[0]), timeout=timeout), parts,
+                            workers=max(2, core.NCPU // 2))
+        return [r for part in res for r in part]
+
+    def stage2_one(self, exprs, name="stage2", timeout=600):
         """exprs: list of Go expression texts of builder type (what a converter returned).  Each is compiled into
         its own function of package main in <module>/cmd/<name>/; expressions that do not compile are isolated
         (reported as {"s": "compile-error", "msg"}) and the rest is rebuilt.  Returns a list of
@@ -292,10 +301,11 @@ class BldBatch:
                 if fn.startswith("e_"):
                     os.remove(os.path.join(d, fn))
             for i in sorted(live):
+                used = [g for g in gopkgs if re.search(r"\b%s\." % re.escape(g), exprs[i])]
                 body = ("package main\n\nimport (\n\t\"reflect\"\n\t\"time\"\n\tcog \"%s/cog\"\n" % self.package_root
-                        + "".join('\t%s "%s/%s"\n' % (g, self.package_root, g) for g in gopkgs)
+                        + "".join('\t%s "%s/%s"\n' % (g, self.package_root, g) for g in used)
                         + ")\n\nvar _ = time.Now\nvar _ cog.Builder[int]\n"
-                        + "".join("var _ = %s.%s\n" % (g, self._any_symbol(g)) for g in gopkgs if self._any_symbol(g))
+                        + "".join("var _ = %s.%s\n" % (g, self._any_symbol(g)) for g in used if self._any_symbol(g))
                         + "\nfunc init() {\n\texprs[%d] = func() reflect.Value {\n\t\treturn reflect.ValueOf(\n%s,\n\t\t)\n\t}\n}\n" % (i, exprs[i]))
                 with open(os.path.join(d, "e_%05d.go" % i), "w") as f:
                     f.write(body)
